@@ -45,7 +45,17 @@ def check_grid(alg, N):
         adj = g.get_voronoi_adjacency(only_upper=False, include_opposing_neighbours=False)
         bor = g.get_cell_borders()
         dis = g.get_center_distances(only_upper=False, include_opposing_neighbours=False)
+        if N % 3 == 0:
+            # request history on the same object: approximate areas first, exact areas afterwards; and matrices again
+            g.get_spherical_voronoi().get_voronoi_volumes(approx=True)
+            g.get_cell_borders()
         area = np.asarray(g.get_spherical_voronoi().get_voronoi_volumes(), dtype=float)
+        if N % 3 == 1:
+            area_again = np.asarray(g.get_spherical_voronoi().get_voronoi_volumes(approx=False), dtype=float)
+            g.get_spherical_voronoi().get_voronoi_volumes(approx=True)
+            area_third = np.asarray(g.get_spherical_voronoi().get_voronoi_volumes(), dtype=float)
+            if not (np.array_equal(area, area_again) and np.array_equal(area, area_third)):
+                area = area_third          # let the area clause report the stale / changed values
 
     # ---- frame
     counts[CLAUSES[0]] += 1
